@@ -23,10 +23,24 @@ def jobs_preempt(rng, thorough):
     return [(dict(gen.conn_log(rng)), rng.randrange(10 ** 9), rng.choice([3, 6])) for _ in range(n)]
 
 
+def jobs_stall(rng, thorough):
+    """third pass, monitor only: a preempted thread may also be held back (virtual time passes while it sits between two statements), so
+    replies can arrive while the sender is between its write and whatever it does next.  The L4 model makes the library's own steps
+    urgent, hence no acceptor here."""
+    out = []
+    for _ in range(8000 if thorough else 150):
+        spec = dict(gen.conn_log(rng))
+        spec["stall"] = {"prob": 0.6, "us": [500, 5000, 40000, 150000]}
+        spec["device"] = dict(spec["device"], latency=rng.choice([0.0, 0.0, 0.001, 0.02]))
+        out.append((spec, rng.randrange(10 ** 9), rng.choice([3, 6, 12])))
+    return out
+
+
 def run(ctx: core.Ctx):
     ctx.lean_stage()
     b2check.run_b2(ctx, jobs, ["C20"], label="log scenarios", log_visible=True)
     b2check.run_b2(ctx, jobs_preempt, ["C20"], label="log scenarios with preemption (monitor only for the log)", accept_log_size=0)
+    b2check.run_b2(ctx, jobs_stall, ["C20"], label="log scenarios with stalled threads (monitor only)", accept=False)
     ctx.info["rule"] = ("sessions shorter and longer than N for N in {0,1,2,5,100}, log snapshots taken at random points by a concurrent caller and compared with the port's own record; each under a seeded schedule with extra line-level preemptions; a case = one schedule; "
                         "non-trivial = distinct (spec, seed)")
     return ctx.finish()
